@@ -102,6 +102,7 @@ func Gen(r *rand.Rand, drivers []evt.Driver, pf Profile) *Program {
 		c.Store = true
 		c.StoreFirst = true // option order is C09's subject; here the documented order
 		c.ErrHandler = r.IntN(2) == 0
+		c.PersistTimeout = r.IntN(3) == 0
 		for i := 0; i < 40; i++ {
 			if r.IntN(5) == 0 {
 				c.FailAppends = append(c.FailAppends, i)
